@@ -4,22 +4,22 @@
   SPEC layer (what the property says the canonical encodings are):
     `encode : Req → Option Nat → Bits`, `valueOf : Req → …`, `leValue`, `Ieee.decode / Ieee.encode`
     (IEEE 754 binary16/32/64 as exact dyadics: a finite value is a natural number of units 2^-1074).
-  ALG layer (the code, function by function):
+  ALG layer (the code, function by function; line numbers of /repo HEAD when this was written):
     bitstore_helpers.py  tidy_input_string (18), bin2bitstore (37), hex2bitstore (50), oct2bitstore (60),
-                         bfloat2bitstore (114), int2bitstore (212), intle2bitstore (233), float2bitstore (238),
-                         bitstore_from_token (258)
-    bits.py              _initialise keyword route (135-170), __getattr__ (172-180), _setbits (581), _setbytes (612),
-                         _setbytes_with_truncation (616), _getbytes (631), _setuint … _getintle (647-741),
-                         _setfloat … _setbfloatle (780-817), _setbool/_getbool/_getpad/_setpad (946-963),
-                         _setbin_safe/_getbin/_setoct/_getoct/_sethex/_gethex (965-995), _getbits (1139),
-                         unpack/_readlist/_read_dtype_list (1150-1223)
-    bitstore.py          tobytes / frombytes / slice_to_uint / slice_to_int / slice_to_hex / _oct / _bin (69-97)
-    dtypes.py            Dtype.__new__ (58-67), Dtype._create (139-163), Dtype.build (165-174), Dtype.parse (176-181),
-                         AllowedLengths (210-236), DtypeDefinition.__init__ get_fn/read_fn (243-309), get_dtype (311-330)
-    bitarray_.py         BitArray.__setattr__ (123-137)
+                         bfloat2bitstore (109), int2bitstore (212), intle2bitstore (235), float2bitstore (240),
+                         bitstore_from_token (261)
+    bits.py              _initialise keyword route (137-171), __getattr__ (173-181), _setbits (604), _setbytes (636),
+                         _setbytes_with_truncation (640), _getbytes (661), _setuint … _getintle (677-769),
+                         _setfloat … _setbfloatle (809-848), _setbool/_getbool/_getpad/_setpad (984-1001),
+                         _setbin_safe/_getbin/_setoct/_getoct/_sethex/_gethex (1003-1033), _getbits (1177),
+                         unpack/_readlist/_read_dtype_list (1188-1261)
+    bitstore.py          frombytes (51), tobytes (83), slice_to_uint / _int / _hex / _bin / _oct (88-101)
+    dtypes.py            Dtype.__new__ (58-67), Dtype._create (148-172), Dtype.build (174-183), Dtype.parse (185-190),
+                         AllowedLengths (224-248), DtypeDefinition.__init__ get_fn/read_fn (276-321), get_dtype (323-345)
+    bitarray_.py         BitArray.__setattr__ (131-145)
     methods.py           pack (12-95)
-    bitstream.py         read (293-351)
-    __init__.py          dtype_definitions (213-277), aliases (280-309)
+    bitstream.py         read (265-323)
+    __init__.py          dtype_definitions (212-281), aliases (284-313)
   bitarray's C primitives are modelled by their documented list meaning:
     int2ba / ba2int = natToBits / bitsToNat / two's complement, hex2ba / ba2hex / base2ba / ba2base = one digit per
     4 / 3 bits, tobytes = 8-bit groups with the last one zero-padded on the right, frombytes = 8 bits per byte.
@@ -443,7 +443,7 @@ inductive Route where
   | kw | nameLen | prop | propLen | token | build | pack
   deriving DecidableEq, Repr
 
-/-- The tail of `Bits._initialise` (bits.py:163-170): `d = Dtype(k, length); d.set_fn(self, v)` on the object under
+/-- The tail of `Bits._initialise` (bits.py:163-171): `d = Dtype(k, length); d.set_fn(self, v)` on the object under
     construction (no bit store yet), then `d.bitlength is not None and len(self) != d.bitlength` → CreationError. -/
 def initWith (d : Dt) (q : Req) : Except Err Bits :=
   match dtSet d q none with
@@ -702,10 +702,11 @@ def getRaw (k : Kind) (b : Bits) : Except Err RVal :=
 def getFn (k : Kind) (b : Bits) : Except Err RVal :=
   if k.allowed ≠ .any ∧ !k.allowed.contains b.length then .error .value else getRaw k b
 
-/-- `DtypeDefinition.read_fn` as bound by `Dtype._create` (dtypes.py:281-290, 147-150). -/
+/-- `DtypeDefinition.read_fn` as bound by `Dtype._create` (dtypes.py:292-304, 156-159): both variants raise
+    ReadError when fewer than `length` bits remain (the single-length one since 5b65b55). -/
 def readFn (d : Dt) (b : Bits) (start : Nat) : Except Err RVal :=
   match d.kind.allowed.onlyOne with
-  | some n => getFn d.kind ((b.drop start).take n)
+  | some n => if b.length < start + n then .error .read else getFn d.kind ((b.drop start).take n)
   | none =>
     match d.bitlength with
     | none => .error .type                           -- `start + None`
